@@ -1101,7 +1101,7 @@ class ConstructedPayloadDecoderBase(AbstractConstructedPayloadDecoder):
                                         if component is eoo.endOfOctets:
                                             break
 
-                                    containerValue[pos] = component
+                                        containerValue[pos] = component
 
                             else:
                                 stream = asSeekableStream(asn1Object.getComponentByPosition(idx).asOctets())
